@@ -868,7 +868,16 @@ static RunResult dkg_execute_inner(const Plan &plan, const std::vector<uint64_t>
 				else
 					for (size_t a = 0; a < H.size() && W.res.ok(); a++)
 					{
-						if (W.out[H[a]].vss_rec_ret[0] != 1) W.violate("C15", "reconstruct_failed", "Reconstruct failed at honest party " + std::to_string(H[a]) + " for an honest dealer");
+						if (W.out[H[a]].vss_rec_ret[0] != 1)
+						{
+							// the dealer of this implementation holds no share of its own: reconstruction needs t+1 correct
+							// shares from the other n-1 parties (finding F16: impossible with t deviating share holders
+							// when n = 2t+1) - named apart, so that the recorded finding covers nothing else
+							size_t fnd = 0; for (size_t z = 0; z < W.n; z++) if (W.faulty[z] && z != dealer) fnd++;
+							bool too_few_holders = (W.n - 1 - fnd) < (W.t + 1);
+							W.violate("C15", too_few_holders ? "reconstruct_failed_dealer_holds_no_share" : "reconstruct_failed", "Reconstruct failed at honest party " + std::to_string(H[a]) + " for an honest dealer" +
+								(too_few_holders ? " (only " + std::to_string(W.n - 1 - fnd) + " non-deviating share holders besides the dealer, t+1 = " + std::to_string(W.t + 1) + " needed)" : std::string()));
+						}
 						else if (H[a] != dealer && W.out[H[a]].vss_out[0] != zs(W.vss_secret)) W.violate("C15", "reconstructed_wrong_secret", "party " + std::to_string(H[a]) + " reconstructed " + W.out[H[a]].vss_out[0] + " instead of the dealer's secret");
 					}
 			}
